@@ -269,6 +269,11 @@ def do_check(a):
     lock = load_lock()
 
     lean_proc = lean_axioms_start() if tier == "thorough" else None
+    cross_log = None
+    if tier == "thorough" and os.path.exists("/usr/bin/z3"):
+        os.makedirs(os.path.join(VERIF, "replays"), exist_ok=True)
+        cross_log = os.path.join(VERIF, "replays", f"crosscheck-{prop}-{os.getpid()}.log")
+        os.environ["PYVC_CROSSCHECK"] = cross_log
     sp = _pool(True, prop, a.jobs)
     listing = sp.apply(_w_list, (0,))
     if "error" in listing:
@@ -367,6 +372,25 @@ def do_check(a):
     lean = lean_axioms_finish(lean_proc) if tier == "thorough" else {"status": "not run in the quick tier (thorough tier re-checks lean/Axioms.lean)"}
     if lean.get("status") in ("rejected", "timeout"):
         engine_errors.append(f"A4: lean/Axioms.lean was not accepted by Lean: {lean}")
+    cross = {"status": "not run in the quick tier"}
+    if cross_log:
+        tally = {}
+        if os.path.exists(cross_log):
+            seen_keys = {}
+            with open(cross_log) as fh:
+                for line in fh:
+                    k, _, v = line.strip().partition(" ")
+                    seen_keys[k] = v
+            for v in seen_keys.values():
+                v = v.split(":")[0]
+                tally[v] = tally.get(v, 0) + 1
+            os.unlink(cross_log)
+        cross = {"status": "'unsat' answers of z3 5.1 (goals and pruned branches) re-asked to the z3 4.8.12 binary as SMT-LIB text (5 s each); "
+                           "cvc5 leaves these non-linear queries unknown", "distinct_queries": sum(tally.values()),
+                 "second_solver_agrees_unsat": tally.get("unsat", 0), "second_solver_unknown_or_timeout": tally.get("unknown", 0) + tally.get("timeout", 0),
+                 "second_solver_error": tally.get("error", 0), "second_solver_says_sat": tally.get("sat", 0)}
+        if tally.get("sat"):
+            engine_errors.append(f"A5: z3 4.8.12 answers sat on {tally['sat']} queries that z3 5.1 answered unsat (kept as replays/crosscheck-*.smt2)")
     if conf:
         engine_errors.append(f"model conformance failed (library model differs from the real function; proofs using it are void): {conf[:3]}")
 
@@ -545,6 +569,7 @@ def do_check(a):
                              "differential_instrumented_vs_plain": "agree" if not diff_bad else diff_bad[:5]},
             "model_conformance": "ok" if not conf else conf[:3],
             "axioms_A4_lean": lean,
+            "solver_crosscheck_A5": cross,
             "locked_obligations": len(locked),
             "engine_errors": engine_errors[:20],
             "notes": notes,
@@ -574,6 +599,8 @@ def do_check(a):
     print(f"{prop} {tier}: obligations={len(obligations)} discharged={n_discharged} (shape-bounded {n_shape}) "
           f"known-finding={n_known} undecided={len(undecided)} violations={ev['violations']} "
           f"bounded-evals={b_eval} wall={wall}s exit={exit_code}")
+    if tier == "thorough":
+        print("A4 lean:", lean.get("status"), "| A5 cross-check:", {k: v for k, v in cross.items() if k != "status"})
     return exit_code
 
 
